@@ -259,8 +259,25 @@ func cmdASTFuzz(args []string) int {
 			if err != nil {
 				continue
 			}
-			out, n, err := transformFile(abs, src, astKind(kind), nil, nil)
-			if err != nil || n == 0 {
+			transform := func(pick func(string) bool) ([]byte, int, error) {
+				if kind != "extract" && kind != "extractcalls" && kind != "extractrun" {
+					return transformFile(abs, src, astKind(kind), nil, pick)
+				}
+				for _, pk := range base.Pkgs {
+					for i, gf := range pk.CompiledGoFiles {
+						if gf == abs && i < len(pk.Syntax) {
+							return extractStatements(abs, src, pk.Types, pk.TypesInfo, pk.Syntax[i], pk.Fset, pick, kind == "extractcalls", kind == "extractrun")
+						}
+					}
+				}
+				return nil, 0, nil
+			}
+			out, n, err := transform(nil)
+			if err != nil {
+				fmt.Printf("skip  %-7s %-40s %v\n", kind, rel, err)
+				continue
+			}
+			if n == 0 {
 				continue
 			}
 			keys, infra := runAll(map[string][]byte{abs: out})
@@ -284,7 +301,7 @@ func cmdASTFuzz(args []string) int {
 				}
 				seen[fd.Name.Name] = true
 				name := fd.Name.Name
-				out1, n1, err := transformFile(abs, src, astKind(kind), nil, func(s string) bool { return s == name })
+				out1, n1, err := transform(func(s string) bool { return s == name })
 				if err != nil || n1 == 0 {
 					continue
 				}
@@ -299,4 +316,269 @@ func cmdASTFuzz(args []string) int {
 		return 1
 	}
 	return 0
+}
+
+// ---------------------------------------------------------------------------------------------------------------------
+// extract: every eligible statement of a pointer-receiver method that only writes through the receiver (r.f = e,
+// r.f += e, r.f++, r.m(args) as a statement) is moved into its own new unexported method of the same receiver, with the
+// locals and parameters it mentions passed as arguments. This is the most common shape of the hand-made refactorings
+// that tripped the rules (a few statements moved into a helper).
+// ---------------------------------------------------------------------------------------------------------------------
+
+func extractStatements(filename string, src []byte, pkgTypes *types.Package, info *types.Info, origFile *ast.File, origFset *token.FileSet, pick func(string) bool, callsToo bool, runsOnly bool) ([]byte, int, error) {
+	fset := token.NewFileSet()
+	f, err := parser.ParseFile(fset, filename, src, parser.ParseComments)
+	if err != nil {
+		return nil, 0, err
+	}
+	// identifiers of the type-checked syntax by byte offset
+	identAt := map[int]*ast.Ident{}
+	ast.Inspect(origFile, func(n ast.Node) bool {
+		if id, ok := n.(*ast.Ident); ok {
+			identAt[origFset.Position(id.Pos()).Offset] = id
+		}
+		return true
+	})
+	qual := func(p *types.Package) string {
+		if p == pkgTypes {
+			return ""
+		}
+		// the import name used in this file
+		for _, imp := range origFile.Imports {
+			path := strings.Trim(imp.Path.Value, "\"")
+			if path == p.Path() {
+				if imp.Name != nil {
+					return imp.Name.Name
+				}
+				return p.Name()
+			}
+		}
+		return "\x00" // not importable from this file
+	}
+	n := 0
+	var helpers []string
+	for _, d := range f.Decls {
+		fd, ok := d.(*ast.FuncDecl)
+		if !ok || fd.Body == nil || fd.Recv == nil || len(fd.Recv.List) != 1 || len(fd.Recv.List[0].Names) != 1 {
+			continue
+		}
+		if pick != nil && !pick(fd.Name.Name) {
+			continue
+		}
+		star, ok := fd.Recv.List[0].Type.(*ast.StarExpr)
+		if !ok {
+			continue
+		}
+		tid, ok := star.X.(*ast.Ident) // no generic receivers
+		if !ok {
+			continue
+		}
+		recv := fd.Recv.List[0].Names[0].Name
+		if recv == "_" {
+			continue
+		}
+		var visit func(list []ast.Stmt)
+		var extractOne func(st ast.Stmt) ast.Stmt
+		var tryExtractStmts func(sts []ast.Stmt) ast.Stmt
+		tryExtract := func(st ast.Stmt) ast.Stmt { return tryExtractStmts([]ast.Stmt{st}) }
+		tryExtractRun := func(sts []ast.Stmt) ast.Stmt { return tryExtractStmts(sts) }
+		var eligible func(st ast.Stmt) bool
+		tryExtractStmts = func(sts []ast.Stmt) ast.Stmt {
+			for _, st := range sts {
+				if !eligible(st) {
+					return nil
+				}
+			}
+			st := ast.Stmt(&ast.BlockStmt{List: sts})
+			if len(sts) == 1 {
+				st = sts[0]
+			}
+			return extractOne(st)
+		}
+		_ = tryExtractRun
+		eligible = func(st ast.Stmt) bool {
+			rooted := func(e ast.Expr) bool {
+				for {
+					switch x := e.(type) {
+					case *ast.SelectorExpr:
+						e = x.X
+					case *ast.IndexExpr:
+						e = x.X
+					case *ast.ParenExpr:
+						e = x.X
+					case *ast.StarExpr:
+						e = x.X
+					case *ast.Ident:
+						return x.Name == recv
+					default:
+						return false
+					}
+				}
+			}
+			switch x := st.(type) {
+			case *ast.AssignStmt:
+				if x.Tok == token.DEFINE || len(x.Lhs) != 1 || len(x.Rhs) != 1 || !rooted(x.Lhs[0]) {
+					return false
+				}
+				if _, isSel := x.Lhs[0].(*ast.SelectorExpr); !isSel {
+					return false
+				}
+			case *ast.IncDecStmt:
+				if !rooted(x.X) {
+					return false
+				}
+			case *ast.ExprStmt:
+				if !callsToo {
+					return false
+				}
+				call, ok := x.X.(*ast.CallExpr)
+				if !ok {
+					return false
+				}
+				sel, ok := call.Fun.(*ast.SelectorExpr)
+				if !ok || !rooted(sel.X) {
+					return false
+				}
+			default:
+				return false
+			}
+			return true
+		}
+		extractOne = func(st ast.Stmt) ast.Stmt {
+			// free local identifiers and their types
+			bad := false
+			type prm struct{ name, typ string }
+			var prms []prm
+			seen := map[string]bool{}
+			ast.Inspect(st, func(nd ast.Node) bool {
+				switch y := nd.(type) {
+				case *ast.FuncLit:
+					bad = true
+					return false
+				case *ast.SelectorExpr:
+					ast.Inspect(y.X, func(z ast.Node) bool { return true })
+					// do not treat the selected name as a free identifier
+					if id, ok := y.X.(*ast.Ident); ok {
+						_ = id
+					}
+				case *ast.Ident:
+					orig := identAt[fset.Position(y.Pos()).Offset]
+					if orig == nil {
+						return true
+					}
+					obj := info.Uses[orig]
+					if obj == nil {
+						return true
+					}
+					v, isVar := obj.(*types.Var)
+					if !isVar || v.IsField() || v.Parent() == nil || v.Parent() == pkgTypes.Scope() || v.Parent() == types.Universe {
+						return true
+					}
+					if v.Name() == recv || seen[v.Name()] {
+						return true
+					}
+					seen[v.Name()] = true
+					ts := types.TypeString(v.Type(), qual)
+					if strings.Contains(ts, "\x00") || strings.Contains(ts, "struct{") || strings.Contains(ts, "interface{") && ts != "interface{}" {
+						bad = true
+					}
+					prms = append(prms, prm{v.Name(), ts})
+				}
+				return true
+			})
+			if bad {
+				return nil
+			}
+			// a parameter must not be assigned by the statement (would not propagate back)
+			n++
+			name := fmt.Sprintf("zzExtracted%s%d", fd.Name.Name, n)
+			var ps, as []string
+			for _, q := range prms {
+				ps = append(ps, q.name+" "+q.typ)
+				as = append(as, q.name)
+			}
+			var body bytes.Buffer
+			if blk, isBlk := st.(*ast.BlockStmt); isBlk {
+				for _, s1 := range blk.List {
+					_ = format.Node(&body, fset, s1)
+					body.WriteString("\n\t")
+				}
+			} else {
+				_ = format.Node(&body, fset, st)
+			}
+			helpers = append(helpers, fmt.Sprintf("\nfunc (%s *%s) %s(%s) {\n\t%s\n}\n", recv, tid.Name, name, strings.Join(ps, ", "), body.String()))
+			args := make([]ast.Expr, len(as))
+			for i, a := range as {
+				args[i] = ast.NewIdent(a)
+			}
+			return &ast.ExprStmt{X: &ast.CallExpr{Fun: &ast.SelectorExpr{X: ast.NewIdent(recv), Sel: ast.NewIdent(name)}, Args: args}}
+		}
+		visit = func(list []ast.Stmt) {
+			if runsOnly {
+				// consecutive eligible statements (two or more) become one helper: wrap them into a block statement and
+				// let tryExtractBlock handle it
+				for i := 0; i < len(list); i++ {
+					j := i
+					for j < len(list) && eligible(list[j]) {
+						j++
+					}
+					if j-i >= 2 {
+						if rep := tryExtractRun(list[i:j]); rep != nil {
+							list[i] = rep
+							for k := i + 1; k < j; k++ {
+								list[k] = &ast.EmptyStmt{Implicit: true}
+							}
+						}
+						i = j - 1
+					}
+				}
+			}
+			for i, st := range list {
+				if _, isEmpty := st.(*ast.EmptyStmt); isEmpty {
+					continue
+				}
+				if !runsOnly {
+					if rep := tryExtract(st); rep != nil {
+						list[i] = rep
+						continue
+					}
+				}
+				switch x := st.(type) {
+				case *ast.BlockStmt:
+					visit(x.List)
+				case *ast.IfStmt:
+					visit(x.Body.List)
+					if eb, ok := x.Else.(*ast.BlockStmt); ok {
+						visit(eb.List)
+					} else if ei, ok := x.Else.(*ast.IfStmt); ok {
+						visit([]ast.Stmt{ei})
+					}
+				case *ast.ForStmt:
+					visit(x.Body.List)
+				case *ast.RangeStmt:
+					visit(x.Body.List)
+				case *ast.SwitchStmt:
+					for _, cc := range x.Body.List {
+						visit(cc.(*ast.CaseClause).Body)
+					}
+				}
+			}
+		}
+		visit(fd.Body.List)
+	}
+	if n == 0 {
+		return nil, 0, nil
+	}
+	var buf bytes.Buffer
+	if err := format.Node(&buf, fset, f); err != nil {
+		return nil, 0, err
+	}
+	for _, h := range helpers {
+		buf.WriteString(h)
+	}
+	out, err := format.Source(buf.Bytes())
+	if err != nil {
+		return nil, 0, err
+	}
+	return out, n, nil
 }
